@@ -1,0 +1,33 @@
+//go:build verif
+
+package cpualt
+
+// Contracts for the snesvc verifier (/verif). Comment-only; compiled only with -tags verif.
+
+// AttachReader / AttachWriter: every 16-byte segment from start>>4 to end>>4 inclusive is routed to
+// the given function, every other entry of the table and the other table are untouched; an end at or
+// above 2^24 is outside the table (index panic), hence the precondition.
+
+//@ func (*Bus).AttachReader
+//@   params b start end r
+//@   property C08 C02
+//@   requires end < 0x1000000
+//@   ensures all(k, uint32, k < 1<<20 ==> b.Read[k] == ite(start>>4 <= k && k <= end>>4, r, old(b.Read[k])))
+//@   assigns b.Read
+//@   loop 1 invariant start>>4 <= phi1 && (phi1 <= (end>>4)+1 || phi1 == start>>4)
+//@   loop 1 invariant all(k, uint32, k < 1<<20 ==> b.Read[k] == ite(start>>4 <= k && k < phi1, r, old(b.Read[k])))
+//@   loop 1 decreases (end>>4) + 1 - phi1
+//@   loop 1 names a
+//@   loop 1 modifies b.Read
+
+//@ func (*Bus).AttachWriter
+//@   params b start end w
+//@   property C08 C02
+//@   requires end < 0x1000000
+//@   ensures all(k, uint32, k < 1<<20 ==> b.Write[k] == ite(start>>4 <= k && k <= end>>4, w, old(b.Write[k])))
+//@   assigns b.Write
+//@   loop 1 invariant start>>4 <= phi1 && (phi1 <= (end>>4)+1 || phi1 == start>>4)
+//@   loop 1 invariant all(k, uint32, k < 1<<20 ==> b.Write[k] == ite(start>>4 <= k && k < phi1, w, old(b.Write[k])))
+//@   loop 1 decreases (end>>4) + 1 - phi1
+//@   loop 1 names a
+//@   loop 1 modifies b.Write
